@@ -127,9 +127,31 @@ pub fn oneshot_decrypt(rounds: usize, key: &[u8], nonce: &[u8; 12], aad: &[u8], 
     (out, ok)
 }
 
+/// what an incremental receiver that had one of its calls refused did afterwards
+#[derive(Clone, Copy, PartialEq, Eq, Debug)]
+pub enum AfterRefusal {
+    /// no refused call was injected in this delivery
+    NotInjected,
+    /// a call with a mismatched output length was made before a piece and refused loudly; the delivery then completed
+    Completed,
+    /// ... and a later call failed loudly too (the object considers itself poisoned): acceptable, nothing to compare
+    LoudAgain,
+    /// the mismatched call was ACCEPTED (that is C20's business, not judged here; the delivery is not compared)
+    Accepted,
+}
+
 /// incremental receiver with its own fragmentation drawn from `frag_seed`
 pub fn incremental_decrypt(rounds: usize, key: &[u8], nonce: &[u8; 12], aad: &[u8], ct: &[u8], tag: &[u8; 16], frag_seed: u64) -> (Vec<u8>, bool) {
+    let (out, ok, _) = incremental_decrypt_faulty(rounds, key, nonce, aad, ct, tag, frag_seed, false);
+    (out, ok)
+}
+
+/// the same receiver; with `inject` about one delivery in four first makes a call the API refuses (buffer-to-buffer
+/// decrypt with an output buffer of another length) right before one of its pieces, then goes on with the same object
+pub fn incremental_decrypt_faulty(rounds: usize, key: &[u8], nonce: &[u8; 12], aad: &[u8], ct: &[u8], tag: &[u8; 16], frag_seed: u64, inject: bool) -> (Vec<u8>, bool, AfterRefusal) {
     let mut rng = Rng::new(frag_seed);
+    let mut inject_left = if inject && Rng::new(frag_seed ^ 0x1e7).chance(1, 4) { 1 } else { 0 };
+    let mut state = AfterRefusal::NotInjected;
     macro_rules! go {
         ($r:literal) => {{
             let mut c = Context::<$r>::new(key, nonce);
@@ -147,19 +169,35 @@ pub fn incremental_decrypt(rounds: usize, key: &[u8], nonce: &[u8; 12], aad: &[u
             let mut i = 0;
             while i < ct.len() {
                 let n = frag(&mut rng, ct.len() - i);
-                if rng.chance(1, 2) {
+                if inject_left > 0 && n > 0 && Rng::new(frag_seed ^ i as u64).chance(1, 2) {
+                    inject_left = 0;
+                    // the refused call: same input, output buffer one byte longer or shorter
+                    let mut wrong = data(0xbad ^ n as u64, if frag_seed & 1 == 0 { n + 1 } else { n - 1 });
+                    match crate::guard::guarded(|| d.decrypt(&ct[i..i + n], &mut wrong)) {
+                        Err(_) => state = AfterRefusal::Completed,
+                        Ok(()) => return (Vec::new(), false, AfterRefusal::Accepted),
+                    }
+                }
+                let piece: Result<Vec<u8>, String> = if rng.chance(1, 2) {
                     let mut b = ct[i..i + n].to_vec();
-                    d.decrypt_mut(&mut b);
-                    out.extend_from_slice(&b);
+                    crate::guard::guarded(|| d.decrypt_mut(&mut b)).map(|_| b)
                 } else {
                     let mut b = data(0xfeed ^ n as u64, n);
-                    d.decrypt(&ct[i..i + n], &mut b);
-                    out.extend_from_slice(&b);
+                    crate::guard::guarded(|| d.decrypt(&ct[i..i + n], &mut b)).map(|_| b)
+                };
+                match piece {
+                    Ok(b) => out.extend_from_slice(&b),
+                    Err(_) if state == AfterRefusal::Completed => return (Vec::new(), false, AfterRefusal::LoudAgain),
+                    Err(m) => panic!("{}", m),
                 }
                 i += n;
             }
-            let ok = d.finalize(&Tag(*tag)) == DecryptionResult::Match;
-            (out, ok)
+            let fin = crate::guard::guarded(move || d.finalize(&Tag(*tag)) == DecryptionResult::Match);
+            match fin {
+                Ok(ok) => (out, ok, state),
+                Err(_) if state == AfterRefusal::Completed => (Vec::new(), false, AfterRefusal::LoudAgain),
+                Err(m) => panic!("{}", m),
+            }
         }};
     }
     match rounds {
@@ -413,7 +451,21 @@ impl Scenario for AeadFlow {
                 guarded(|| oneshot_decrypt(rounds, &key, &nonce, &aad, &ct, &tag)).map_err(|m| Violation::new("unexpected-panic", n, "one-shot decrypt", m, "aead"))?
             } else {
                 obs.hit("path.receiver_incremental");
-                guarded(|| incremental_decrypt(rounds, &key, &nonce, &aad, &ct, &tag, t.p("recv_seed") ^ hi as u64)).map_err(|m| Violation::new("unexpected-panic", n, "incremental decrypt", m, "aead"))?
+                let inject = t.p("recv_seed") & 4 != 0;
+                let (b, ok, st) = guarded(|| incremental_decrypt_faulty(rounds, &key, &nonce, &aad, &ct, &tag, t.p("recv_seed") ^ hi as u64, inject)).map_err(|m| Violation::new("unexpected-panic", n, "incremental decrypt", m, "aead"))?;
+                match st {
+                    AfterRefusal::NotInjected => {}
+                    AfterRefusal::Completed => obs.hit("fault.receiver_call_refused_then_history_continued"),
+                    AfterRefusal::LoudAgain => {
+                        obs.hit("observed.loud_failure_after_an_earlier_refusal");
+                        continue;
+                    }
+                    AfterRefusal::Accepted => {
+                        obs.hit("observed.mismatched_buffer_accepted_not_judged_here");
+                        continue;
+                    }
+                }
+                (b, ok)
             };
             obs.out(&back);
             obs.out_flag("accept", ok);
@@ -714,7 +766,20 @@ impl Scenario for AeadTamper {
             let c16 = |l: usize| match l % 16 { 0 => 0u32, 1 => 1, 15 => 2, _ => 3 };
             obs.cov(((rounds as u32) << 16) | ((d.key.len() as u32 / 16) << 14) | ((op.k as u32) << 6) | (c16(d.aad.len()) << 3) | (c16(d.ct.len()) << 1) | spec_accept as u32);
             let (p1, v1) = guarded(|| oneshot_decrypt(rounds, &d.key, &d.nonce, &d.aad, &d.ct, &d.tag)).map_err(|m| Violation::new("unexpected-panic", i, "one-shot decrypt", m, T_KINDS[op.k as usize]))?;
-            let (p2, v2) = guarded(|| incremental_decrypt(rounds, &d.key, &d.nonce, &d.aad, &d.ct, &d.tag, op.seed)).map_err(|m| Violation::new("unexpected-panic", i, "incremental decrypt", m, T_KINDS[op.k as usize]))?;
+            // the incremental receiver sometimes has one call refused (mismatched buffer length) before it goes on
+            let (p2, v2, st) = guarded(|| incremental_decrypt_faulty(rounds, &d.key, &d.nonce, &d.aad, &d.ct, &d.tag, op.seed, op.seed & 8 != 0)).map_err(|m| Violation::new("unexpected-panic", i, "incremental decrypt", m, T_KINDS[op.k as usize]))?;
+            match st {
+                AfterRefusal::NotInjected => {}
+                AfterRefusal::Completed => obs.hit("fault.receiver_call_refused_then_history_continued"),
+                AfterRefusal::LoudAgain => {
+                    obs.hit("observed.loud_failure_after_an_earlier_refusal");
+                    continue;
+                }
+                AfterRefusal::Accepted => {
+                    obs.hit("observed.mismatched_buffer_accepted_not_judged_here");
+                    continue;
+                }
+            }
             obs.out_flag("oneshot", v1);
             obs.out_flag("incremental", v2);
             let what = format!("aead R={} key{}: delivery '{}' arg {} (aad {} bytes, ct {} bytes)", rounds, d.key.len() * 8, T_KINDS[op.k as usize], op.arg, d.aad.len(), d.ct.len());
